@@ -150,3 +150,31 @@ func VH_C12_waitRacesSubmit() {
 	pool.Close()
 	vAssert(vQuiesce() == 0, "all-pool-goroutines-terminate-after-close")
 }
+
+// back-pressure: while every worker is held inside a task, a goroutine that keeps submitting comes
+// to a halt (Submit blocks) long before `tasks` submissions - far more than any queue of a pool of
+// this size holds - have been accepted
+func VH_C12_backPressure() {
+	w := vParam("w", 1)
+	t := vParam("tasks", 40)
+	vUnwind(t + 8)
+	pool := NewWorkerPool(w)
+	gate := false
+	returned, ran, submitterDone := 0, 0, false
+	go func() {
+		for i := 0; i < t; i++ {
+			pool.Submit(func() {
+				vBlockUntil(func() bool { return gate })
+				vMon(func() { ran++ })
+			})
+			vMon(func() { returned++ })
+		}
+		vMon(func() { submitterDone = true })
+	}()
+	vQuiesce() // everything that can happen with the gate shut has happened
+	vMon(func() { vAssert(returned < t, "submit-blocks-when-workers-are-busy-and-the-queue-is-full") })
+	// (that nothing is dropped once the workers go on is what VH_C12_pool checks with more tasks
+	// than queue slots; the run ends here with the gate shut)
+	_, _ = ran, submitterDone
+	vCover("back-pressure")
+}
